@@ -142,6 +142,9 @@ func runC14Query(t *testing.T, c explore.Case) (res explore.Result) {
 		limEmpty := p["lim"] == "empty"
 		y := NewSys(func(cfg *dht.ServerConfig) {
 			cfg.QueryResendDelay = func() time.Duration { return c14D }
+			if p["blk"] == "t" {
+				cfg.IPBlocklist = Blocklist{cidr("198.51.100.0/24")} // covers none of the addresses used
+			}
 			if limEmpty {
 				l := rate.NewLimiter(rate.Every(time.Hour), 1)
 				l.Allow()
@@ -615,6 +618,10 @@ func TestC14(t *testing.T) {
 							continue // quick: at most two of the three disturbances together with a write error
 						}
 						run("query", []string{"n=" + strconv.Itoa(n), "R=" + R, "C=" + C, "S=" + S, "W=" + W, "rl=default", "lim=inf"})
+						if R == "never" && C == "never" && W == "none" {
+							// the same with an IP blocklist configured that covers nobody
+							run("query", []string{"n=" + strconv.Itoa(n), "R=" + R, "C=" + C, "S=" + S, "W=" + W, "rl=default", "lim=inf", "blk=t"})
+						}
 					}
 				}
 			}
